@@ -81,6 +81,28 @@ pub fn run_job(line: &str) -> String {
                 Err(ps) => format!("panic render {}", ps.site),
             }
         }
+        // contract <prop> <dpi> <hex path | -> <hex data>: walk the whole tree, check the property's contracts
+        Some("contract") if p.len() == 5 => {
+            let dpi: f32 = p[2].parse().unwrap_or(96.0);
+            let path = if p[3] == "-" { None } else { Some(std::path::PathBuf::from(String::from_utf8_lossy(&hex_decode(p[3])).to_string())) };
+            let data = hex_decode(p[4]);
+            let mut o = crate::corpus::opts_for(path.as_deref());
+            o.dpi = dpi;
+            let tree = match pan::catch(|| usvg::Tree::from_data(&data, &o)) {
+                Ok(Ok(t)) => t,
+                Ok(Err(e)) => return format!("err {}", format!("{}", e).replace(' ', "_")),
+                Err(ps) => return format!("parse-panic {}", ps.site),
+            };
+            let prop = p[1].to_string();
+            match pan::catch(|| crate::tree::check(&prop, &tree)) {
+                Ok(v) if v.is_empty() => format!("ok {}", count_nodes(tree.root())),
+                Ok(v) => {
+                    let parts: Vec<String> = v.iter().take(20).map(|x| format!("{}\u{1}{}", x.sig, x.what.replace('\n', " ").replace('\u{1}', " ").replace('\u{2}', " "))).collect();
+                    format!("viol {}", parts.join("\u{2}"))
+                }
+                Err(ps) => format!("check-panic {}", ps.site),
+            }
+        }
         _ => "bad-job".to_string(),
     }
 }
